@@ -71,13 +71,14 @@ impl Seq {
 }
 
 pub fn pythonic_index_isize<T>(xs: &[T], n: isize) -> NRes<usize> {
-    if n >= 0 && n < (xs.len() as isize) {
+    let len = xs.len() as isize;
+    if n >= 0 && n < len {
         return Ok(n as usize);
     }
 
-    let i2 = (n + (xs.len() as isize)) as usize;
-    if i2 < xs.len() {
-        return Ok(i2);
+    // only negative indices wrap around (and n + len can't overflow for them)
+    if n < 0 && n + len >= 0 {
+        return Ok((n + len) as usize);
     }
 
     Err(NErr::index_error(format!(
